@@ -1,23 +1,1037 @@
-//! C16: not built yet
+//! C16: last will – published exactly once iff the connection ended without DISCONNECT.
+//!
+//! Deciding substrate S6 (full broker stack in memory: real router thread, real per-connection
+//! task `remote()` with its will handling, scripted raw-byte clients decoded with the client
+//! crate's codecs) plus the router half on S4 (`s4parts::c16_plan`).
+//!
+//! One S6 case = one short session of a client under test (with or without a will) that is
+//! ended at an enumerated point by an enumerated flavour of ending, observed by 0..3 current
+//! subscribers, a later subscriber (retain flag) and – in some cases – a second session of
+//! the same client id without a will. Counting is done at logical barriers: the connection
+//! task's JoinHandle (its Disconnect / PublishWill events are then in the router channel),
+//! a router barrier, then a sentinel publish on the will topic that every observer waits
+//! for (per-log FIFO: the will, if any, was forwarded before the sentinel).
+use super::s4common;
+use super::s4parts;
 use super::{Meta, Prop};
-use crate::common::{Ctx, Stats};
+use crate::common::{fnv, judge, sharded, Ctx, Judged, Record, Rng, Stats};
+use crate::gen::canon::{self, Canon, PVal, Props};
+use crate::sub::s6::{self, helper_client, Broker, ListenerCfg, Raw, Rt, S6Err, TaskEnd, Ver};
+use serde::{Deserialize, Serialize};
+use serde_json::{json, Value};
 
-fn run(_ctx: &Ctx) -> Stats {
-    let mut s = Stats::default();
-    s.inconclusive.push("check not built yet".into());
-    s
+// ---------------------------------------------------------------- case description
+
+#[derive(Clone, Copy, Debug, PartialEq, Eq, Serialize, Deserialize)]
+pub enum Op {
+    /// SUBSCRIBE to an own topic (SUBACK awaited)
+    Subscribe,
+    /// PUBLISH with this QoS on a topic nobody subscribes to (ack flow completed)
+    Publish(u8),
+    Ping,
+}
+
+#[derive(Clone, Copy, Debug, PartialEq, Eq, Serialize, Deserialize)]
+pub enum End {
+    /// socket closed, no packet
+    Close,
+    /// first half of a PUBLISH frame, then socket closed
+    MidPacket,
+    /// DISCONNECT, then socket closed
+    DisconnectClose,
+    /// DISCONNECT, then wait for the broker to close
+    DisconnectWait,
+    /// a PUBLISH and DISCONNECT in one write, then socket closed
+    PublishDisconnect,
+    /// DISCONNECT followed by undecodable bytes in the same write
+    DisconnectGarbage,
+    /// undecodable bytes: 0 = reserved packet type, 1 = PUBLISH with QoS 3, 2 = frame larger than the listener's maximum
+    Malformed(u8),
+    /// unsolicited acknowledgement: 0 = PUBACK, 1 = PUBREC, 2 = PUBCOMP → the router closes the connection
+    BadAck(u8),
+    /// keep-alive of 1 s and silence (real time; the broker closes after 1.5 s)
+    KeepAlive,
+    /// the complete CONNECT is written and the socket closed before CONNACK is read (only at point 0)
+    CloseBeforeConnack,
+    /// only a prefix of the CONNECT is written, then the socket is closed (only at point 0): never a session
+    TruncatedConnect,
+}
+
+impl End {
+    fn name(&self) -> String {
+        match self {
+            End::Malformed(k) => format!("Malformed{k}"),
+            End::BadAck(k) => format!("BadAck{k}"),
+            e => format!("{e:?}"),
+        }
+    }
+    /// did the client send DISCONNECT before the connection ended?
+    fn disconnect_first(&self) -> bool {
+        matches!(
+            self,
+            End::DisconnectClose | End::DisconnectWait | End::PublishDisconnect | End::DisconnectGarbage
+        )
+    }
+}
+
+#[derive(Clone, Debug, PartialEq, Eq, Serialize, Deserialize)]
+pub struct WillSpec {
+    pub qos: u8,
+    pub retain: bool,
+    /// MQTT 5 will properties (empty for a 3.1.1 client)
+    pub props: Props,
+}
+
+#[derive(Clone, Copy, Debug, PartialEq, Eq, Serialize, Deserialize)]
+pub enum FilterKind {
+    Exact,
+    Plus,
+    Hash,
+    /// a filter that does not match the will topic
+    NoMatch,
+}
+
+#[derive(Clone, Debug, PartialEq, Eq, Serialize, Deserialize)]
+pub struct SubSpec {
+    pub v5: bool,
+    pub filter: FilterKind,
+    pub qos: u8,
+}
+
+#[derive(Clone, Debug, PartialEq, Eq, Serialize, Deserialize)]
+pub struct Case {
+    pub n: u64,
+    pub v5: bool,
+    pub will: Option<WillSpec>,
+    pub subs: Vec<SubSpec>,
+    pub session: Vec<Op>,
+    /// number of session operations executed before the end
+    pub end_point: usize,
+    pub end: End,
+    pub second_session: bool,
+    pub late_v5: bool,
+    pub clean: bool,
+}
+
+impl Case {
+    fn ver(&self) -> Ver {
+        if self.v5 {
+            Ver::V5
+        } else {
+            Ver::V4
+        }
+    }
+    fn will_topic(&self) -> String {
+        format!("w{}/a/b", self.n)
+    }
+    fn will_payload(&self) -> Vec<u8> {
+        format!("will:{}", self.n).into_bytes()
+    }
+    fn client_id(&self) -> String {
+        format!("c16x{}", self.n)
+    }
+    fn filter(&self, k: FilterKind) -> String {
+        match k {
+            FilterKind::Exact => format!("w{}/a/b", self.n),
+            FilterKind::Plus => format!("w{}/+/b", self.n),
+            FilterKind::Hash => format!("w{}/#", self.n),
+            FilterKind::NoMatch => format!("w{}x/#", self.n),
+        }
+    }
+    fn nomatch_topic(&self) -> String {
+        format!("w{}x/s", self.n)
+    }
+    /// the statement's prediction: does the will have to be published?
+    fn registered(&self) -> bool {
+        self.will.is_some() && self.end != End::TruncatedConnect
+    }
+    fn expected(&self) -> u64 {
+        (self.registered() && !self.end.disconnect_first()) as u64
+    }
+    /// inputs that reproduce a defect recorded in known_findings.json
+    fn is_trigger(&self) -> bool {
+        let props_to_v4 = self.will.as_ref().is_some_and(|w| !w.props.is_empty())
+            && (self.subs.iter().any(|s| !s.v5 && s.filter != FilterKind::NoMatch) || !self.late_v5);
+        props_to_v4 || matches!(self.end, End::CloseBeforeConnack | End::DisconnectGarbage)
+    }
+    fn shape(&self) -> u64 {
+        let s = format!(
+            "{}|{:?}|{:?}|{:?}|{}|{}|{}|{}",
+            self.v5,
+            self.will.as_ref().map(|w| (w.qos, w.retain, w.props.iter().map(|p| p.0).collect::<Vec<_>>())),
+            self.subs,
+            self.session,
+            self.end_point,
+            self.end.name(),
+            self.second_session,
+            self.late_v5
+        );
+        fnv(s.as_bytes())
+    }
+}
+
+// ---------------------------------------------------------------- observation
+
+#[derive(Clone, Debug, Default, Serialize)]
+pub struct SubObs {
+    /// the subscriber received the sentinel (its stream is complete up to it)
+    pub complete: bool,
+    /// will publications before the first sentinel
+    pub wills: u64,
+    /// will publications between the first and the second sentinel (second session)
+    pub wills_second: u64,
+    /// a will publication whose topic differs from the registered one
+    pub wrong_topic: Option<String>,
+    /// everything else that arrived (payloads), for the replay file
+    pub other: Vec<String>,
+    /// how the subscriber's connection task ended if it ended early
+    pub lost: Option<TaskEnd>,
+}
+
+#[derive(Clone, Debug, Default, Serialize)]
+pub struct Obs {
+    pub connack: String,
+    pub ended: String,
+    pub subs: Vec<SubObs>,
+    /// retained copies of the will seen by the later subscriber (None: not run)
+    pub late_retained: Option<u64>,
+    pub late_retain_flag_ok: bool,
+    pub late_lost: Option<TaskEnd>,
+    pub wills_registered_after_end: bool,
+    pub live_after_end: bool,
+    pub notes: Vec<String>,
+}
+
+fn will_props(rng: &mut Rng) -> Props {
+    let mut p: Props = vec![];
+    if rng.chance(1, 2) {
+        p.push((canon::P_PAYLOAD_FORMAT, PVal::U8(1)));
+    }
+    if rng.chance(1, 2) {
+        p.push((canon::P_MESSAGE_EXPIRY, PVal::U32(3600)));
+    }
+    if rng.chance(1, 2) {
+        p.push((canon::P_CONTENT_TYPE, PVal::Str("text/plain".into())));
+    }
+    if rng.chance(1, 3) {
+        p.push((canon::P_RESPONSE_TOPIC, PVal::Str("resp/t".into())));
+    }
+    if rng.chance(1, 3) {
+        p.push((canon::P_CORRELATION_DATA, PVal::Bin(vec![1, 2, 3])));
+    }
+    if p.is_empty() || rng.chance(1, 3) {
+        p.push((canon::P_USER, PVal::Pair("k".into(), "v".into())));
+    }
+    canon::sort_props(&mut p);
+    p
+}
+
+// ---------------------------------------------------------------- execution
+
+fn listeners() -> Vec<ListenerCfg> {
+    vec![ListenerCfg::plain(Ver::V4), ListenerCfg::plain(Ver::V5)]
+}
+
+fn new_broker(rt: &Rt) -> Broker {
+    Broker::start(rt, s6::router_config(64), listeners())
+}
+
+fn ver_of(v5: bool) -> Ver {
+    if v5 {
+        Ver::V5
+    } else {
+        Ver::V4
+    }
+}
+
+async fn finish_helper(mut r: Raw) -> Result<(), S6Err> {
+    if r.is_open() {
+        r.disconnect().await?;
+    }
+    r.close();
+    r.join().await?;
+    Ok(())
+}
+
+/// count the will publications among `pubs[from..]`, note wrong topics
+fn count_wills(case: &Case, r: &Raw, from: usize, obs: &mut SubObs) -> u64 {
+    let wp = case.will_payload();
+    let wt = case.will_topic().into_bytes();
+    let mut n = 0;
+    for p in r.pubs.iter().skip(from) {
+        if p.payload == wp {
+            n += 1;
+            if p.topic != wt {
+                obs.wrong_topic = Some(String::from_utf8_lossy(&p.topic).into_owned());
+            }
+        } else if !p.payload.starts_with(b"sentinel") {
+            obs.other.push(String::from_utf8_lossy(&p.payload).into_owned());
+        }
+    }
+    n
+}
+
+async fn run_case(b: &Broker, case: &Case) -> Result<Obs, S6Err> {
+    let mut obs = Obs::default();
+    let n = case.n;
+    let v = if case.v5 { 5 } else { 4 };
+    // sentinel publisher
+    let mut p = helper_client(b, Ver::V4, &format!("c16p{n}")).await?;
+    // current subscribers
+    let mut subs: Vec<Raw> = vec![];
+    for (i, s) in case.subs.iter().enumerate() {
+        let mut r = helper_client(b, ver_of(s.v5), &format!("c16s{n}_{i}")).await?;
+        let granted = r.subscribe(&case.filter(s.filter), s.qos, None).await?;
+        if granted.is_none() {
+            return Err(S6Err::Harness("subscriber got no SUBACK".into()));
+        }
+        subs.push(r);
+    }
+
+    // the client under test
+    let keep_alive = if case.end == End::KeepAlive { 1 } else { 60 };
+    let mut c = s6::connect(v, &case.client_id(), case.clean, keep_alive);
+    if let Some(w) = &case.will {
+        c = s6::with_will(c, &case.will_topic(), &case.will_payload(), w.qos, w.retain, w.props.clone());
+        // a will delay only has an effect with a session expiry at least as long
+        if let Some(d) = w.props.iter().find_map(|(i, v)| match (i, v) {
+            (&canon::P_WILL_DELAY, PVal::U32(d)) => Some(*d),
+            _ => None,
+        }) {
+            c.props = vec![(canon::P_SESSION_EXPIRY, PVal::U32(d + 5))];
+        }
+    }
+    let mut x = b.open(b.listener(case.ver()));
+    let connect_bytes = canon::encode(&c);
+    match case.end {
+        End::TruncatedConnect => {
+            let k = connect_bytes.len() * 2 / 3;
+            x.write(&connect_bytes[..k]).await?;
+            x.close();
+            obs.connack = "not awaited".into();
+        }
+        End::CloseBeforeConnack => {
+            x.write(&connect_bytes).await?;
+            x.close();
+            obs.connack = "not awaited".into();
+        }
+        _ => {
+            x.write(&connect_bytes).await?;
+            let out = x.connack().await?;
+            obs.connack = out.brief();
+            if !out.accepted() {
+                return Err(S6Err::Harness(format!("client under test was not accepted: {}", out.brief())));
+            }
+            for op in case.session.iter().take(case.end_point) {
+                let ok = match op {
+                    Op::Subscribe => x.subscribe(&format!("o{n}/own"), 1, None).await?.is_some(),
+                    Op::Publish(q) => x.publish(format!("o{n}/p").as_bytes(), b"data", *q, false, vec![]).await?,
+                    Op::Ping => x.ping().await?,
+                };
+                if !ok {
+                    return Err(S6Err::Harness(format!("session operation {op:?} was not completed by the broker")));
+                }
+            }
+            let mut disc = Canon::empty(v, canon::DISCONNECT);
+            disc.code = 0;
+            let disc = canon::encode(&disc);
+            let mut publ = Canon::empty(v, canon::PUBLISH);
+            publ.topic = format!("o{n}/p").into_bytes();
+            publ.payload = b"last".to_vec();
+            publ.qos = 1;
+            publ.pkid = 999;
+            let publ = canon::encode(&publ);
+            match case.end {
+                End::Close => x.close(),
+                End::MidPacket => {
+                    x.write(&publ[..publ.len() / 2]).await?;
+                    x.close();
+                }
+                End::DisconnectClose => {
+                    x.write(&disc).await?;
+                    x.close();
+                }
+                End::DisconnectWait => {
+                    x.write(&disc).await?;
+                    x.until_closed().await?;
+                }
+                End::PublishDisconnect => {
+                    let mut both = publ.clone();
+                    both.extend_from_slice(&disc);
+                    x.write(&both).await?;
+                    x.close();
+                }
+                End::DisconnectGarbage => {
+                    let mut both = disc.clone();
+                    both.extend_from_slice(&[0x00, 0x00, 0xff, 0xff]);
+                    x.write(&both).await?;
+                    x.until_closed().await?;
+                }
+                End::Malformed(k) => {
+                    let bytes: Vec<u8> = match k {
+                        0 => vec![0x00, 0x00],
+                        1 => vec![0x36, 0x07, 0x00, 0x01, b'a', 0x00, 0x01, 0x00, b'x'],
+                        // remaining length 2 MiB > the listener's 1 MiB maximum
+                        _ => vec![0x30, 0x80, 0x80, 0x80, 0x01],
+                    };
+                    x.write(&bytes).await?;
+                    x.until_closed().await?;
+                }
+                End::BadAck(k) => {
+                    let t = match k {
+                        0 => canon::PUBACK,
+                        1 => canon::PUBREC,
+                        _ => canon::PUBCOMP,
+                    };
+                    let mut a = Canon::empty(v, t);
+                    a.pkid = 4242;
+                    x.send(&a).await?;
+                    x.until_closed().await?;
+                }
+                End::KeepAlive => {
+                    x.until_closed().await?;
+                }
+                End::CloseBeforeConnack | End::TruncatedConnect => unreachable!(),
+            }
+        }
+    }
+    let end = x.join().await?;
+    obs.ended = format!("{end:?}");
+
+    // barrier 1: the router has handled the Disconnect / PublishWill of the ended connection
+    let snap = b.barrier().await?;
+    obs.wills_registered_after_end = snap.wills.contains(&case.client_id());
+    obs.live_after_end = snap.connection_map.iter().any(|(c, _)| *c == case.client_id());
+
+    // sentinel 1
+    let s1 = format!("sentinel1:{n}").into_bytes();
+    p.publish(case.will_topic().as_bytes(), &s1, 0, false, vec![]).await?;
+    p.publish(case.nomatch_topic().as_bytes(), &s1, 0, false, vec![]).await?;
+    let mut marks = vec![];
+    for r in subs.iter_mut() {
+        let mut so = SubObs::default();
+        so.complete = r.until_payload(&s1).await?;
+        if !so.complete {
+            so.lost = Some(r.join().await?);
+        }
+        so.wills = count_wills(case, r, 0, &mut so);
+        marks.push(r.pubs.len());
+        obs.subs.push(so);
+    }
+
+    // second session of the same client id, without a will, ended by a socket close
+    if case.second_session {
+        let mut x2 = b.open(b.listener(case.ver()));
+        let out = x2.connect(&s6::connect(v, &case.client_id(), true, 60)).await?;
+        if !out.accepted() {
+            obs.notes.push(format!("second session not accepted: {}", out.brief()));
+        }
+        x2.close();
+        x2.join().await?;
+        b.barrier().await?;
+        let s2 = format!("sentinel2:{n}").into_bytes();
+        p.publish(case.will_topic().as_bytes(), &s2, 0, false, vec![]).await?;
+        p.publish(case.nomatch_topic().as_bytes(), &s2, 0, false, vec![]).await?;
+        for (i, r) in subs.iter_mut().enumerate() {
+            if !obs.subs[i].complete {
+                continue;
+            }
+            let done = r.until_payload(&s2).await?;
+            if !done {
+                obs.subs[i].complete = false;
+                obs.subs[i].lost = Some(r.join().await?);
+            }
+            let mut so = obs.subs[i].clone();
+            so.wills_second = count_wills(case, r, marks[i], &mut so);
+            obs.subs[i] = so;
+        }
+    }
+
+    // a later subscriber sees the will iff it was published with the retain flag
+    {
+        let mut l = helper_client(b, ver_of(case.late_v5), &format!("c16l{n}")).await?;
+        if l.subscribe(&case.will_topic(), 1, None).await?.is_none() {
+            obs.late_lost = Some(l.join().await?);
+        } else {
+            let s3 = format!("sentinel3:{n}").into_bytes();
+            p.publish(case.will_topic().as_bytes(), &s3, 0, false, vec![]).await?;
+            if l.until_payload(&s3).await? {
+                let wp = case.will_payload();
+                let copies: Vec<_> = l.pubs.iter().filter(|p| p.payload == wp).collect();
+                obs.late_retained = Some(copies.len() as u64);
+                obs.late_retain_flag_ok = copies.iter().all(|p| p.retain);
+            } else {
+                obs.late_lost = Some(l.join().await?);
+            }
+        }
+        // remove the retained will so that topics stay clean (not judged)
+        p.publish(case.will_topic().as_bytes(), b"", 0, true, vec![]).await?;
+        finish_helper(l).await?;
+    }
+
+    for r in subs {
+        finish_helper(r).await?;
+    }
+    finish_helper(p).await?;
+    b.barrier().await?;
+    Ok(obs)
+}
+
+// ---------------------------------------------------------------- oracle
+
+fn base_record(case: &Case, oracle: &str, msg: String) -> Record {
+    Record::new("C16", oracle, msg)
+        .fact("substrate", "S6")
+        .fact("end", case.end.name())
+        .fact("disconnect_first", case.end.disconnect_first())
+        .fact("client", if case.v5 { "v5" } else { "v4" })
+        .fact("will", case.will.is_some())
+        .fact("will_props", case.will.as_ref().is_some_and(|w| !w.props.is_empty()))
+}
+
+fn lost_facts(r: Record, lost: &Option<TaskEnd>) -> Record {
+    match lost {
+        Some(TaskEnd::Panicked { location, message }) => r
+            .fact("observer_task", "panicked")
+            .fact("panic_site", location.split(':').next().unwrap_or("?"))
+            .fact("panic_message", message.chars().take(80).collect::<String>()),
+        Some(TaskEnd::Returned) => r.fact("observer_task", "returned"),
+        None => r,
+    }
+}
+
+/// Decide one case. Returns the first failing record, if any.
+fn check(case: &Case, obs: &Obs, stats: &mut Stats) -> Option<Record> {
+    let expected = case.expected();
+    for (i, (spec, so)) in case.subs.iter().zip(obs.subs.iter()).enumerate() {
+        let want = if spec.filter == FilterKind::NoMatch { 0 } else { expected };
+        let sv = if spec.v5 { "v5" } else { "v4" };
+        stats.oracle("will-count");
+        if !so.complete {
+            // the observer's connection was ended by the broker: the will cannot have been delivered "exactly once"
+            let r = base_record(case, "observer-lost", format!("subscriber {i} ({sv}, {:?}) lost its connection while observing (task: {:?})", spec.filter, so.lost))
+                .fact("observer", sv)
+                .fact("expected", want);
+            return Some(lost_facts(r, &so.lost));
+        }
+        if so.wills != want {
+            let oracle = if so.wills < want {
+                "will-missing"
+            } else if want == 0 && case.registered() {
+                "will-after-disconnect"
+            } else if want == 0 {
+                "will-without-registration"
+            } else {
+                "will-duplicated"
+            };
+            return Some(
+                base_record(
+                    case,
+                    oracle,
+                    format!(
+                        "subscriber {i} ({sv}, {:?}) received the will {} time(s), expected {want} (end {} at point {})",
+                        spec.filter,
+                        so.wills,
+                        case.end.name(),
+                        case.end_point
+                    ),
+                )
+                .fact("observer", sv)
+                .fact("expected", want)
+                .fact("got", so.wills),
+            );
+        }
+        if let Some(t) = &so.wrong_topic {
+            return Some(base_record(case, "will-topic", format!("will arrived on topic {t}, registered {}", case.will_topic())));
+        }
+        if case.second_session {
+            stats.oracle("no-will-from-willless-client");
+            if so.wills_second != 0 {
+                return Some(
+                    base_record(
+                        case,
+                        "will-from-willless-session",
+                        format!("a later session of the same client id without a will caused {} will publication(s) at subscriber {i}", so.wills_second),
+                    )
+                    .fact("first_session_expected", expected)
+                    .fact("got", so.wills_second),
+                );
+            }
+        }
+    }
+    stats.oracle("retained-will");
+    match obs.late_retained {
+        None => {
+            let r = base_record(case, "observer-lost", format!("the later subscriber lost its connection (task: {:?})", obs.late_lost))
+                .fact("observer", if case.late_v5 { "v5" } else { "v4" })
+                .fact("expected", "retained-replay");
+            return Some(lost_facts(r, &obs.late_lost));
+        }
+        Some(got) => {
+            let retain = case.will.as_ref().is_some_and(|w| w.retain);
+            let want = (expected == 1 && retain) as u64;
+            if got != want {
+                let oracle = if got < want {
+                    "will-missing"
+                } else if !case.registered() {
+                    "will-without-registration"
+                } else if expected == 0 {
+                    "will-after-disconnect"
+                } else if !retain {
+                    "will-retained-unasked"
+                } else {
+                    "will-duplicated"
+                };
+                return Some(
+                    base_record(
+                        case,
+                        oracle,
+                        format!(
+                            "a later subscriber received {got} retained cop(ies) of the will, expected {want} (will retain={retain}, end {} at point {})",
+                            case.end.name(),
+                            case.end_point
+                        ),
+                    )
+                    .fact("observer", "later-subscriber")
+                    .fact("expected", want)
+                    .fact("got", got),
+                );
+            }
+            if !obs.late_retain_flag_ok {
+                return Some(base_record(case, "retained-will-flag", "the retained will reached a new subscriber without the retain flag".into()));
+            }
+        }
+    }
+    None
+}
+
+// ---------------------------------------------------------------- generation
+
+const FLAVOURS: &[End] = &[
+    End::Close,
+    End::MidPacket,
+    End::DisconnectClose,
+    End::DisconnectWait,
+    End::PublishDisconnect,
+    End::Malformed(0),
+    End::Malformed(1),
+    End::Malformed(2),
+    End::BadAck(0),
+    End::BadAck(1),
+    End::BadAck(2),
+];
+
+fn gen_subs(rng: &mut Rng, all_v5: bool) -> Vec<SubSpec> {
+    let k = rng.weighted(&[2, 4, 3, 2]);
+    (0..k)
+        .map(|_| SubSpec {
+            v5: all_v5 || rng.chance(1, 2),
+            filter: *rng.pick(&[FilterKind::Exact, FilterKind::Exact, FilterKind::Plus, FilterKind::Hash, FilterKind::NoMatch]),
+            qos: rng.below(3) as u8,
+        })
+        .collect()
+}
+
+fn gen_session(rng: &mut Rng) -> Vec<Op> {
+    let len = rng.range(1, 3);
+    (0..len)
+        .map(|_| *rng.pick(&[Op::Subscribe, Op::Publish(0), Op::Publish(1), Op::Publish(2), Op::Ping]))
+        .collect()
+}
+
+/// One generated session and every (end point × end flavour) case over it
+fn gen_cases(rng: &mut Rng, counter: &mut u64, with_triggers: bool) -> Vec<Case> {
+    let v5 = rng.chance(1, 2);
+    let session = gen_session(rng);
+    let mut out = vec![];
+    let mut flavours: Vec<(usize, End)> = vec![];
+    for p in 0..=session.len() {
+        for f in FLAVOURS {
+            flavours.push((p, *f));
+        }
+    }
+    if with_triggers {
+        flavours.push((rng.below(session.len() as u64 + 1) as usize, End::DisconnectGarbage));
+    }
+    flavours.push((0, End::TruncatedConnect));
+    if with_triggers {
+        flavours.push((0, End::CloseBeforeConnack));
+    }
+    for (p, f) in flavours {
+        let has_will = rng.chance(4, 5);
+        // (in a trigger session 3.1.1 observers are allowed, so properties are rarer there)
+        let props_wanted = v5 && has_will && rng.chance(1, if with_triggers { 8 } else { 3 });
+        // a will with properties towards a 3.1.1 observer reproduces the V4::write defect: triggers only
+        let all_v5 = props_wanted && !with_triggers;
+        let will = has_will.then(|| WillSpec {
+            qos: rng.below(3) as u8,
+            retain: rng.chance(1, 2),
+            props: if props_wanted { will_props(rng) } else { vec![] },
+        });
+        *counter += 1;
+        out.push(Case {
+            n: *counter,
+            v5,
+            will,
+            subs: gen_subs(rng, all_v5),
+            session: session.clone(),
+            end_point: p,
+            end: f,
+            // a connection that failed in RemoteLink::new followed by the same client id is C19's known finding
+            second_session: f != End::CloseBeforeConnack && rng.chance(1, 3),
+            late_v5: all_v5 || rng.chance(1, 2),
+            clean: rng.chance(2, 3),
+        });
+    }
+    out
+}
+
+/// Real-time cases: keep-alive expiry and a will delay of one second
+fn timing_cases(rng: &mut Rng, counter: &mut u64, k: usize) -> Vec<Case> {
+    let mut out = vec![];
+    for i in 0..k {
+        *counter += 1;
+        let v5 = i % 2 == 1;
+        let delayed = v5 && i % 4 == 3;
+        let mut props: Props = vec![];
+        if delayed {
+            props.push((canon::P_WILL_DELAY, PVal::U32(1)));
+        }
+        out.push(Case {
+            n: *counter,
+            v5,
+            will: (i % 5 != 4).then(|| WillSpec {
+                qos: rng.below(3) as u8,
+                retain: rng.chance(1, 2),
+                props,
+            }),
+            subs: vec![
+                SubSpec { v5: true, filter: FilterKind::Exact, qos: rng.below(3) as u8 },
+                SubSpec { v5: delayed || rng.chance(1, 2), filter: FilterKind::Hash, qos: 0 },
+            ],
+            session: vec![Op::Ping],
+            end_point: rng.below(2) as usize,
+            end: if delayed { End::Close } else { End::KeepAlive },
+            second_session: false,
+            late_v5: true,
+            clean: true,
+        });
+    }
+    out
+}
+
+// ---------------------------------------------------------------- driver
+
+fn replay_doc(case: &Case, obs: &Obs) -> Value {
+    json!({"substrate": "S6", "case": case, "observed": obs,
+           "will_topic": case.will_topic(), "will_payload": String::from_utf8_lossy(&case.will_payload()),
+           "expected_publications": case.expected()})
+}
+
+fn account(case: &Case, obs: &Obs, stats: &mut Stats) {
+    stats.evaluations += 1;
+    stats.op(&format!("end:{}", case.end.name()));
+    stats.op(if case.v5 { "client:v5" } else { "client:v4" });
+    stats.opn("current-subscribers", case.subs.len() as u64);
+    *stats.ops.entry("crash_points".into()).or_default() += 1;
+    stats.shapes.insert(case.shape());
+    if case.expected() == 1 {
+        stats.corner("will-due");
+        if case.subs.iter().any(|s| s.filter != FilterKind::NoMatch) {
+            stats.corner("will-due-with-subscribers");
+        } else {
+            stats.corner("will-due-no-subscriber");
+        }
+    } else if case.registered() {
+        stats.corner("will-cancelled-by-disconnect");
+    } else {
+        stats.corner("no-will-registered");
+    }
+    if case.will.as_ref().is_some_and(|w| w.retain) && case.expected() == 1 {
+        stats.corner("retained-will-due");
+    }
+    if case.second_session {
+        stats.corner("second-session-without-will");
+    }
+    match case.end {
+        End::KeepAlive => stats.corner("keep-alive-expiry"),
+        End::BadAck(_) => stats.corner("router-initiated-close"),
+        End::Malformed(_) => stats.corner("protocol-error"),
+        End::MidPacket => stats.corner("close-mid-packet"),
+        _ => {}
+    }
+    if case.will.as_ref().is_some_and(|w| w.props.iter().any(|p| p.0 == canon::P_WILL_DELAY)) {
+        stats.corner("will-delay");
+    }
+    let delivered: u64 = obs.subs.iter().map(|s| s.wills).sum();
+    stats.add_extra("will_publications_observed", delivered);
+    if obs.wills_registered_after_end {
+        stats.add_extra("will_still_registered_after_end", 1);
+    }
+    if obs.live_after_end {
+        stats.add_extra("connection_still_registered_after_end", 1);
+    }
+}
+
+/// Run cases one after the other on one broker; a fresh broker after every failed case
+fn run_cases(ctx: &Ctx, rt: &Rt, cases: &[Case], stats: &mut Stats) {
+    let mut broker = new_broker(rt);
+    let mut on_broker = 0;
+    for case in cases {
+        if on_broker >= 400 {
+            broker = new_broker(rt);
+            on_broker = 0;
+        }
+        on_broker += 1;
+        match rt.block_on(run_case(&broker, case)) {
+            Ok(obs) => {
+                account(case, &obs, stats);
+                if let Some(rec) = check(case, &obs, stats) {
+                    match judge(ctx, stats, rec, || replay_doc(case, &obs)) {
+                        Judged::Known(_) | Judged::Violation => {}
+                    }
+                    // the broker may be left with a dead observer or a leaked connection: do not reuse it
+                    broker = new_broker(rt);
+                    on_broker = 0;
+                } else if stats.samples.len() < 2 && case.expected() == 1 && !case.subs.is_empty() {
+                    stats.sample(replay_doc(case, &obs));
+                }
+            }
+            Err(S6Err::RouterGone(p)) => {
+                let rec = Record::new("C16", "router-panic", format!("router thread ended during a will scenario: {p:?}"))
+                    .fact("site", p.as_ref().map(|p| crate::common::panic_site(p)).unwrap_or_default());
+                judge(ctx, stats, rec, || json!({"substrate": "S6", "case": case}));
+                broker = new_broker(rt);
+                on_broker = 0;
+            }
+            Err(e) => {
+                stats.inconclusive.push(format!("S6 case {} ({}): {e}", case.n, case.end.name()));
+                broker = new_broker(rt);
+                on_broker = 0;
+            }
+        }
+        if stats.violations.len() >= 3 || stats.inconclusive.len() >= 5 {
+            break;
+        }
+    }
+}
+
+/// Timing cases run concurrently, each on its own broker
+fn run_timing(ctx: &Ctx, rt: &Rt, cases: &[Case], stats: &mut Stats) {
+    let brokers: Vec<Broker> = cases.iter().map(|_| new_broker(rt)).collect();
+    let results = rt.block_on(async {
+        let futs = cases.iter().zip(brokers.iter()).map(|(c, b)| run_case(b, c));
+        futures_util::future::join_all(futs).await
+    });
+    for (case, r) in cases.iter().zip(results) {
+        match r {
+            Ok(obs) => {
+                account(case, &obs, stats);
+                if let Some(rec) = check(case, &obs, stats) {
+                    judge(ctx, stats, rec, || replay_doc(case, &obs));
+                }
+            }
+            Err(e) => stats.inconclusive.push(format!("S6 timing case {} ({}): {e}", case.n, case.end.name())),
+        }
+    }
+}
+
+/// The AwaitingWill::Cancel path (outside the claim: a reconnect before the will fires).
+/// Reported in the evidence, never judged: a v5 client with a delayed will drops, the same
+/// client id reconnects with clean_start=false and *no* will before the delay is over, then
+/// that second connection drops too. Returns (wills seen after the first drop, after the second).
+async fn stale_will_probe(b: &Broker, n: u64) -> Result<(u64, u64), S6Err> {
+    let topic = format!("stale{n}/t");
+    let mut w = helper_client(b, Ver::V5, &format!("c16sw{n}")).await?;
+    w.subscribe(&topic, 0, None).await?;
+    let mut p = helper_client(b, Ver::V4, &format!("c16sp{n}")).await?;
+    let id = format!("c16st{n}");
+    let mut c = s6::connect(5, &id, false, 60);
+    c = s6::with_will(c, &topic, b"stale-will", 0, false, vec![(canon::P_WILL_DELAY, PVal::U32(2))]);
+    c.props = vec![(canon::P_SESSION_EXPIRY, PVal::U32(30))];
+    let mut x = b.open(b.listener(Ver::V5));
+    if !x.connect(&c).await?.accepted() {
+        return Err(S6Err::Harness("stale-will probe: first connect refused".into()));
+    }
+    x.close();
+    // the first task now waits for the will delay; reconnect before it is over, without a will
+    let mut c2 = s6::connect(5, &id, false, 60);
+    c2.props = vec![(canon::P_SESSION_EXPIRY, PVal::U32(30))];
+    let mut x2 = b.open(b.listener(Ver::V5));
+    if !x2.connect(&c2).await?.accepted() {
+        return Err(S6Err::Harness("stale-will probe: second connect refused".into()));
+    }
+    x.join().await?;
+    b.barrier().await?;
+    p.publish(topic.as_bytes(), b"sentinel-a", 0, false, vec![]).await?;
+    w.until_payload(b"sentinel-a").await?;
+    let first = w.pubs.iter().filter(|m| m.payload == b"stale-will").count() as u64;
+    x2.close();
+    x2.join().await?;
+    b.barrier().await?;
+    p.publish(topic.as_bytes(), b"sentinel-b", 0, false, vec![]).await?;
+    w.until_payload(b"sentinel-b").await?;
+    let total = w.pubs.iter().filter(|m| m.payload == b"stale-will").count() as u64;
+    finish_helper(w).await?;
+    finish_helper(p).await?;
+    b.barrier().await?;
+    Ok((first, total - first))
+}
+
+/// Take-over while both connections carry a will (outside the claim, reported only): 'id' is live
+/// with will W1; a second connection with the same id, clean session and will W2 takes over and
+/// stays connected. Returns the will payloads a subscriber saw after the take-over.
+async fn takeover_probe(b: &Broker, n: u64) -> Result<Vec<String>, S6Err> {
+    let topic = format!("tko{n}/t");
+    let mut w = helper_client(b, Ver::V4, &format!("c16tw{n}")).await?;
+    w.subscribe(&topic, 0, None).await?;
+    let mut p = helper_client(b, Ver::V4, &format!("c16tp{n}")).await?;
+    let id = format!("c16tk{n}");
+    let c1 = s6::with_will(s6::connect(4, &id, true, 60), &topic, b"W1-of-replaced-connection", 0, false, vec![]);
+    let c2 = s6::with_will(s6::connect(4, &id, true, 60), &topic, b"W2-of-live-connection", 0, false, vec![]);
+    let mut x1 = b.open(b.listener(Ver::V4));
+    if !x1.connect(&c1).await?.accepted() {
+        return Err(S6Err::Harness("take-over probe: first connect refused".into()));
+    }
+    let mut x2 = b.open(b.listener(Ver::V4));
+    if !x2.connect(&c2).await?.accepted() {
+        return Err(S6Err::Harness("take-over probe: second connect refused".into()));
+    }
+    x1.until_closed().await?;
+    x1.join().await?;
+    b.barrier().await?;
+    if !x2.ping().await? {
+        return Err(S6Err::Harness("take-over probe: the new connection is not live".into()));
+    }
+    p.publish(topic.as_bytes(), b"sentinel-t", 0, false, vec![]).await?;
+    w.until_payload(b"sentinel-t").await?;
+    let seen: Vec<String> = w.pubs.iter().filter(|m| !m.payload.starts_with(b"sentinel")).map(|m| String::from_utf8_lossy(&m.payload).into_owned()).collect();
+    finish_helper(x2).await?;
+    finish_helper(w).await?;
+    finish_helper(p).await?;
+    b.barrier().await?;
+    Ok(seen)
+}
+
+fn s6_part(ctx: &Ctx) -> Stats {
+    let shards = if ctx.quick() { ctx.threads.clamp(1, 8) } else { ctx.threads.max(1) };
+    let sessions_total = ctx.size(160, 2400);
+    let trigger_pct = if ctx.quick() { 15 } else { 5 };
+    sharded(ctx, shards, |shard, seed| {
+        let mut stats = Stats::default();
+        let mut rng = Rng::new(seed ^ 0xc16);
+        let rt = Rt::new(&format!("c16-{shard}"), 3);
+        let mut counter: u64 = (shard as u64) * 10_000_000;
+        let sessions = sessions_total / shards as u64 + 1;
+        // timing cases first (they run concurrently, each on its own broker)
+        // quick: every shard takes two of the ten, so both versions, the delayed will and the
+        // will-less client are covered across shards
+        let all = timing_cases(&mut rng, &mut counter, 10);
+        let t: Vec<Case> = if ctx.quick() {
+            (0..2).map(|j| all[(shard * 2 + j) % 10].clone()).collect()
+        } else {
+            all
+        };
+        run_timing(ctx, &rt, &t, &mut stats);
+        for _ in 0..sessions {
+            let with_triggers = rng.chance(trigger_pct, 100);
+            let cases = gen_cases(&mut rng, &mut counter, with_triggers);
+            debug_assert!(with_triggers || cases.iter().all(|c| !c.is_trigger()));
+            run_cases(ctx, &rt, &cases, &mut stats);
+            if stats.violations.len() >= 3 || stats.inconclusive.len() >= 5 {
+                break;
+            }
+        }
+        if shard == 0 {
+            let b = new_broker(&rt);
+            match rt.block_on(stale_will_probe(&b, counter + 1)) {
+                Ok((first, second)) => {
+                    stats.extra.insert(
+                        "outside_claim_reconnect_before_delayed_will".into(),
+                        json!({"history": "v5 CONNECT(id, clean_start=0, session expiry 30, will delay 2) ; socket close ; within the delay CONNECT(id, clean_start=0, no will) ; socket close",
+                               "will_publications_after_first_close": first,
+                               "will_publications_after_second_close_of_willless_connection": second}),
+                    );
+                }
+                Err(e) => {
+                    stats.extra.insert("outside_claim_reconnect_before_delayed_will".into(), json!(format!("probe failed: {e}")));
+                }
+            }
+            let b = new_broker(&rt);
+            match rt.block_on(takeover_probe(&b, counter + 2)) {
+                Ok(seen) => {
+                    stats.extra.insert(
+                        "outside_claim_takeover_with_two_wills".into(),
+                        json!({"history": "CONNECT(id, will W1) ; CONNECT(id, clean session, will W2) takes over and stays connected",
+                               "wills_seen_by_a_subscriber_after_the_take_over": seen}),
+                    );
+                }
+                Err(e) => {
+                    stats.extra.insert("outside_claim_takeover_with_two_wills".into(), json!(format!("probe failed: {e}")));
+                }
+            }
+        }
+        stats
+    })
+}
+
+fn run(ctx: &Ctx) -> Stats {
+    let mut stats = s6_part(ctx);
+    stats.exhaustive_scopes.push(
+        "S6: for every generated session, every end point (0..=len) x end flavour (socket close, close mid-packet, DISCONNECT+close, DISCONNECT+wait, PUBLISH+DISCONNECT, 3 malformed frames, 3 unsolicited acks) plus truncated CONNECT"
+            .into(),
+    );
+    if stats.violations.is_empty() {
+        let s4 = s4common::run(ctx, &s4parts::c16_plan());
+        stats.merge(s4);
+    }
+    stats
+}
+
+fn replay(ctx: &Ctx, doc: &Value) -> Stats {
+    if doc["substrate"] != "S6" {
+        return s4common::replay(ctx, &s4parts::c16_plan(), doc);
+    }
+    let mut stats = Stats::default();
+    let case: Case = match serde_json::from_value(doc["case"].clone()) {
+        Ok(c) => c,
+        Err(e) => {
+            stats.inconclusive.push(format!("replay: cannot read case: {e}"));
+            return stats;
+        }
+    };
+    let rt = Rt::new("c16-replay", 3);
+    run_cases(ctx, &rt, std::slice::from_ref(&case), &mut stats);
+    println!("replayed S6 case: {}", serde_json::to_string(&case).unwrap_or_default());
+    stats.shapes.insert(1);
+    stats.shapes.insert(2);
+    stats
 }
 
 pub fn prop() -> Prop {
     Prop {
         id: "C16",
         meta: Meta {
-            level: "exploration",
-            rule: "not built",
-            assumptions: &[],
-            floors: &[],
+            level: "fault_enumeration",
+            rule: "S6: seeded short sessions (1-3 operations) of a v4/v5 client with or without a will (QoS 0-2, retained or not, MQTT 5 will properties), 0-3 current subscribers (v4/v5, exact / + / # / non-matching filters, QoS 0-2); for each session every end point x end flavour is executed against the full broker stack and the will publications are counted per subscriber between logical barriers (task join, router barrier, sentinel publish), plus a later subscriber for the retain flag and in a third of the cases a second will-less session of the same client id. A case counts as distinct and non-trivial by (client version, will shape, subscriber set, session, end point, end flavour, second session, late subscriber version). S4: see the router half (op-kind sequence that reached a named corner state).",
+            assumptions: &[
+                "connections are in-memory duplex pipes entered through Server::verif_accept; the per-connection task, RemoteLink, Network, protocol and router thread are the production code",
+                "the will delay is 0 except in the will-delay timing cases; keep-alive expiry uses a real 1 s keep-alive",
+                "take-over histories (a reconnect before the will fired) are outside the claim; one such history is executed and reported under coverage.outside_claim_reconnect_before_delayed_will, not judged",
+            ],
+            floors: &[
+                ("will-due-with-subscribers", 20),
+                ("will-cancelled-by-disconnect", 10),
+                ("no-will-registered", 5),
+                ("retained-will-due", 5),
+                ("second-session-without-will", 10),
+                ("router-initiated-close", 10),
+                ("protocol-error", 10),
+                ("keep-alive-expiry", 2),
+                ("will-count", 100),
+            ],
         },
         run,
-        replay: None,
+        replay: Some(replay),
     }
 }
